@@ -197,6 +197,117 @@ def writer_matrix1(tools, work, rep, ev, tier, nxs, tag):
     return 2
 
 
+def options_stage(tools, work, rep, ev, tier, rng, cfg):
+    """spec/TarOpts.tla: archives x tar2sqfs --root-becomes / --no-symlink-retarget, and the fixed image x sqfs2tar
+    --subdir / --keep-as-dir / --root-becomes / --no-hard-links; every emitted case on the real converters"""
+    import re
+    OC = {"Emit": False, "MaxEntries": 2, "CanonMutatesTarget": False}
+    for side, invs in (("t2s", ["TargetsUntouched"]), ("s2t", ["LinksResolve", "RoundTripShape"])):
+        write_cfg(cfg, spec="Spec", constants=dict(OC, Side='"%s"' % side), invariants=invs, deadlock=False)
+        r = run_tlc("TarOpts", cfg, workers=8, timeout=900)
+        ev.tlc(r, "TarOpts " + side)
+        if not r["ok"]:
+            print("MODEL-FAILURE: TarOpts violates %s" % r["violated"])
+            return None
+    write_cfg(cfg, spec="Spec", constants=dict(OC, Side='"t2s"', CanonMutatesTarget=True), invariants=["TargetsUntouched"], deadlock=False)
+    r = run_tlc("TarOpts", cfg, workers=8, timeout=900)
+    ev.tlc(r, "dev TarOpts CanonMutatesTarget")
+    if r["violated"] != "TargetsUntouched":
+        print("SELF-CHECK-FAILED: CanonMutatesTarget without counterexample")
+        return None
+    n = 0
+    # ---- tar2sqfs side ----
+    write_cfg(cfg, spec="Spec", constants=dict(OC, Side='"t2s"', Emit=True), invariants=["EmitOK"], deadlock=False)
+    r = run_tlc("TarOpts", cfg, workers=4, timeout=900)
+    cases = bpbind.parse_emitted(r["out"])
+    ev.set("tar2sqfs_option_cases_emitted", len(cases))
+    withlink = [c for c in cases if c["rb"] and any(e["kind"] == "slink" for e in c["arch"])]
+    rest = [c for c in cases if c not in withlink] if len(cases) < 30000 else []
+    rng.shuffle(withlink)
+    rng.shuffle(rest)
+    cap = 700 if tier == "quick" else 20000
+    cases = withlink[:cap] + rest[:cap // 3]
+
+    def t2s(i):
+        c = cases[i]
+        arch = b""
+        for e in c["arch"]:
+            name = "/".join(e["path"]).encode()
+            if e["kind"] == "dir":
+                arch += tarfmt.header(name + b"/", b"5", mode=0o755)
+            elif e["kind"] == "file":
+                d = b"content of " + name
+                arch += tarfmt.header(name, b"0", size=len(d)) + tarfmt.pad(d)
+            else:
+                arch += tarfmt.header(name, b"2", linkname=e["tgt"].encode())
+        arch += tarfmt.terminator()
+        out = "%s/opt%d.sqfs" % (work, i)
+        rc, o, e2 = sh([tools + "/tar2sqfs", "-q", "-f"] + (["-r", "r"] if c["rb"] else []) + (["-S"] if c["nr"] else []) + [out], stdin=arch, timeout=30)
+        if c["refused"]:
+            return i, (None if rc != 0 else "tar2sqfs accepts an archive whose new root %r is not a directory" % "r"), arch
+        if rc != 0:
+            return i, "tar2sqfs fails: %s" % e2.decode(errors="replace")[-150:], arch
+        t = sqfsimg.load(out).tree(with_content=False)
+        os.unlink(out)
+        for e in c["out"]:
+            if not e["path"]:
+                continue
+            g = t.get("/".join(e["path"]).encode())
+            if g is None or g["kind"] != e["kind"]:
+                return i, "entry /%s: image has %s, specification %s" % ("/".join(e["path"]), g and g["kind"], e["kind"]), arch
+            if e["kind"] == "slink" and g["target"] != e["tgt"].encode():
+                return i, "symlink /%s points at %r, specification %r" % ("/".join(e["path"]), g["target"], e["tgt"]), arch
+        extra = [p for p in t if p and t[p]["kind"] != "dir" and p.decode() not in {"/".join(e["path"]) for e in c["out"]}]
+        if extra:
+            return i, "image has entries the specification drops: %s" % extra[:3], arch
+        return i, None, arch
+
+    with ThreadPoolExecutor(max_workers=16) as ex:
+        for i, bad, arch in ex.map(t2s, range(len(cases))):
+            n += 1
+            if bad:
+                c = cases[i]
+                f = work + "/bad_opt_%d.tar" % i
+                open(f, "wb").write(arch)
+                key = "tar2sqfs-root-becomes-symlink-target" if "points at" in bad else "tar2sqfs-root-becomes"
+                rep.violation(key, "tar2sqfs %s%son the archive %s: %s" % ("--root-becomes r " if c["rb"] else "", "--no-symlink-retarget " if c["nr"] else "",
+                              [("/".join(e["path"]), e["kind"], e["tgt"]) for e in c["arch"]], bad), artefact=f, data={"case": c})
+    # ---- sqfs2tar side ----
+    write_cfg(cfg, spec="Spec", constants=dict(OC, Side='"s2t"', Emit=True, MaxEntries=1), invariants=["EmitS2T"], deadlock=False)
+    r = run_tlc("TarOpts", cfg, workers=1, timeout=900)
+    scases = [json.loads(m.encode().decode("unicode_escape")) for m in re.findall(r'<<"S2T", "((?:[^"\\\\]|\\\\.)*)">>', r["out"])]
+    ev.set("sqfs2tar_option_cases_emitted", len(scases))
+    src = work + "/optsrc.bin"
+    open(src, "wb").write(b"shared content\n")
+    pf = work + "/optimg.txt"
+    open(pf, "w").write("dir /r 0755 1 2\nfile /r/x 0644 3 4 %s\nlink /r/y 0 0 0 /r/x\nfile /x 0600 5 6 %s\ndir /y 0700 7 8\nlink /y/x 0 0 0 /r/x\n" % (src, src))
+    img = work + "/optimg.sqfs"
+    rc, o, e = sh([tools + "/gensquashfs", "-q", "-f", "-F", pf, img], timeout=60)
+    if rc != 0:
+        raise RuntimeError("cannot build the option image: %s" % e[-200:])
+    for c in scases:
+        args = [tools + "/sqfs2tar"]
+        for sd in c["subs"]:
+            args += ["-d", "/".join(sd)]
+        args += (["-k"] if c["kad"] else []) + (["-r", c["rn"]] if c["rn"] != "-" else []) + (["-L"] if c["nl"] else []) + [img]
+        rc, tarb, e = sh(args, timeout=60)
+        n += 1
+        label = " ".join(args[1:-1]) or "(no options)"
+        if rc != 0:
+            rep.violation("sqfs2tar-options", "sqfs2tar %s fails: %s" % (label, e.decode(errors="replace")[-150:]), data={"case": c})
+            continue
+        try:
+            got = [(m.name.rstrip("/") if m.name not in (".", "./") else ".", "dir" if m.isdir() else "file" if (m.isfile() or m.islnk()) else "?", m.linkname if m.islnk() else "")
+                   for m in tarfile.open(fileobj=io.BytesIO(tarb)).getmembers()]
+        except Exception as ex:
+            rep.violation("sqfs2tar-options", "sqfs2tar %s: archive cannot be read: %s" % (label, ex), data={"case": c})
+            continue
+        want = [("/".join(e2["path"]), e2["kind"], "/".join(e2["link"])) for e2 in c["out"]]
+        if got != want:
+            rep.violation("sqfs2tar-options", "sqfs2tar %s writes the members %s, the specification says %s" % (label, got, want), data={"case": c, "got": got})
+    return n
+
+
 def sparse_cases(work, tools, tier, rep):
     """every hole layout over N units x GNU sparse formats; returns number of conversions"""
     N = 5 if tier == "quick" else 7
@@ -390,6 +501,13 @@ def run(tier):
     n = writer_matrix(tools, work, rep, ev, tier)
     evaluations += n
     nontrivial.update("writer-matrix-%d" % k for k in range(n))
+    # ---- path-transforming options (spec/TarOpts.tla) -----------------------------------------------------------
+    n = options_stage(tools, work, rep, ev, tier, rng, cfg)
+    if n is None:
+        ev.write()
+        return 2
+    evaluations += n
+    nontrivial.update("option-case-%d" % k for k in range(n))
     # ---- sparse layouts ------------------------------------------------------------------------------------
     n = sparse_cases(work, tools, tier, rep) + sparse_boundaries(work, tools, tier, rep)
     evaluations += n
